@@ -5,8 +5,15 @@ from props.regcommon import RB, entries
 from vlib import parse_pairs
 
 ID = "C17"
-THEOREMS_PLANNED = [("FlatModel.Props.C17", t) for t in ("FC.C17.no_growth_after_reserve", "FC.C17.push_caps_fit")]
-THEOREMS = []
+THEOREMS = [("FlatModel.Props.C17", t) for t in (
+    "FC.C17.push_caps_fit", "FC.C17.pushes_fit", "FC.C17.lens_of_pushes", "FC.C17.no_growth_after_reserve_items",
+    "FC.C17.no_growth_after_reserve_regions", "FC.C17.no_growth_after_merge", "FC.C17.growAll_of_sources",
+    "FC.C17.no_growth_merge_sources", "FC.C17.heap_caps_constant", "FC.C17.heap_constant_after_merge",
+    "FC.C17.heap_constant_after_reserve_items", "FC.C17.heap_constant_after_reserve_regions", "FC.C17.built_inv",
+    "FC.C17.no_growth_after_clear", "FC.C17.log_growth", "FC.C17.push_doubles", "FC.log_growth_mvec",
+    "FC.C17.no_growth_after_merge_capacity", "FC.C17.stack_no_growth_after_reserve", "FC.C17.stack_indices_fit",
+    "FC.C17.with_capacity_indices")]
+LEAN_TARGETS = ["FlatModel.Generated.CoveredHeap"]
 PROFILES = {"quick": ["checked"], "thorough": ["checked", "wrapping"], "search": ["checked"]}
 RULE = ("vector-backed structural entries (owned, string, slice with Vec indices, option, result, tuple, Vec-as-region) and FlatStacks "
         "with Vec indices: reserve_items(batch) / reserve_regions(sources) / merge_regions(sources) / merge_capacity, from empty and "
